@@ -20,23 +20,27 @@ pub const FORMATS: [NewickFormat; 9] = [
 /// whitespace sit inside verbatim double quotes
 fn gen_name(rng: &mut Rng, uniq: usize) -> String {
     let plain = ["A", "tip", "x_1", "é", "名前", "a.b-c", "T'", "0", "1e5", "nan", "#", "a|b", "€uro"];
-    match rng.below(14) {
+    match rng.below(15) {
         // backslashes are ordinary characters of a label (the format has no escapes): inside a label, at its end,
         // directly before an opening or a closing double quote
         10 => format!("a\\b{}", uniq),
         11 => format!("dir{}\\", uniq),
         12 => format!("\"D:\\runs\\sample {}\\\"", uniq),
         13 => format!("p{}\\\"q r\"", uniq),
+        14 => format!("\"line{}\r\nnext\r\"", uniq),
         0..=5 => format!("{}{}", rng.pick(&plain), uniq),
         6 => format!("\"{} {}\"", rng.pick(&plain), uniq),
         7 => format!("\"a(b),c:d;[e]{}\"", uniq),
         8 => format!("p{}\"q r\"s", uniq),
-        _ => format!("\"\t{}\u{2003}\"", uniq),
+        9 => format!("\"\t{}\u{2003}\"", uniq),
+        // a quoted label keeps its line breaks verbatim, CR LF included
+        _ => format!("\"line{}\r\nnext\r\"", uniq),
     }
 }
 
 fn gen_comment(rng: &mut Rng) -> String {
-    let c = ["c", "&&NHX:S=human:E=1.1.1.1", "a b", "(x,y);", "\"", "[[", "é ü", ":1.5", " "];
+    // line breaks of either convention inside a comment are part of the comment (CR LF is not "normalised")
+    let c = ["c", "&&NHX:S=human:E=1.1.1.1", "a b", "(x,y);", "\"", "[[", "é ü", ":1.5", " ", "two\r\nlines", "\r\n", "cr\ronly", "lf\nonly", "a\r\n\r\nb\n\r"];
     if rng.chance(1, 2) { rng.pick(&c).to_string() } else { rng.pick(MAGIC_COMMENTS).to_string() }
 }
 
